@@ -703,3 +703,55 @@ package rapid
 //@   at findBug#0 set searched = true
 //@   at newRandomBitStream#0 assert [C07] arg0 == lastInit && arg1
 //@   loop 0 invariant [C17] seed == old(seed) && checks == old(checks) && tbFailed == old(tbFailed) && tbErrors == old(tbErrors) && !searched && -1 <= rangeindex && rangeindex < len(failfiles)
+
+//@ func baseSeed
+//@   ensures [C07,C18] implies(flags.seed != 0, result == flags.seed)
+
+//@ func captureTestOutput
+//@   noframe "runs the property"
+//@   requires prop != nil
+//@   ensures tbFailed == old(tbFailed) && tbErrors == old(tbErrors)
+//@   modifies heap, drawn, lockmode, cancelled
+
+//@ func checkTB
+//@   noframe "runs the property"
+//@   assumes "the -rapid.checks flag lies in [0, MaxInt/10] (9.2e17), so that checks*10 does not wrap"
+//@   requires [C09] 0 <= flags.checks && flags.checks <= math.MaxInt/10
+//@   requires [C02] prop != nil && !tbFailed && !searched
+//@   ensures [C02,C09] !tbFailed && now(err1) == nil && now(err2) == nil
+//@   ensures [C09] now(valid) == now(checks) || now(earlyExit) && now(valid) > 0
+//@   ensures [C09] tbErrors == old(tbErrors)
+//@   panics goexit [C02,C09]: tbFailed && tbErrors == old(tbErrors) + 1
+//@   modifies heap, drawn, runs, lastInit, searched, lockmode, cancelled, tbFailed, tbErrors, fsWritten, fsClosed, fsRenamed, fsTmpName, fsTmpDir, runesWritten
+//@   at saveFailFile#0 assert [C06] arg3 == seed && arr(arg4) == arr(buf) && len(arg4) == len(buf) && arg1 == rapidVersion
+//@   at newBufBitStream#0 assert [C01,C06] arr(arg0) == arr(buf) && len(arg0) == len(buf) && !arg1
+//@   at captureTestOutput#0 assert [C06] arr(arg2) == arr(buf) && len(arg2) == len(buf)
+
+// ---------------------------------------------------------------------------------------------
+// MakeFuzz (C13): bytes -> little-endian 64-bit words, short tail zero-padded
+
+//@ define byteAt(in, k) = ite(k < len(in), uint64(in[k]), 0)
+//@ define wordAt(in, j) = byteAt(in, 8*j) | byteAt(in, 8*j+1)<<8 | byteAt(in, 8*j+2)<<16 | byteAt(in, 8*j+3)<<24 | byteAt(in, 8*j+4)<<32 | byteAt(in, 8*j+5)<<40 | byteAt(in, 8*j+6)<<48 | byteAt(in, 8*j+7)<<56
+
+// fuzzWords[j] is, by definition, the j-th little-endian word of the fuzz input, short tail zero-padded.
+//@ ghost fuzzWords (Array (_ BitVec 64) (_ BitVec 64))
+
+//@ func checkFuzz
+//@   noframe "runs the property"
+//@   defines forallp(j, 0, 1<<60, trig(j), fuzzWords[j] == wordAt(input, j))
+//@   requires [C13] prop != nil
+//@   ensures [C13] now(err) == nil && tbFailed == old(tbFailed)
+//@   panics goexit [C13]: true
+//@   modifies heap, drawn, lockmode, cancelled, tbFailed, tbSkipped
+//@   at newBufBitStream#0 assert [C13] !arg1 && len(arg0) == (old(len(input)) + 7) / 8
+//@   at newBufBitStream#0 assert [C13] forall(j, 0, len(arg0), arg0[j] == fuzzWords[j])
+//@   at binary.LittleEndian.Uint64#0 ensure [C13] trig(len(buf)) || !trig(len(buf))
+//@   at binary.LittleEndian.Uint64#0 ensure [C13] result == fuzzWords[len(buf)]
+//@   at tb.SkipNow#0 assert [C13] err != nil && isInvalidData(err.data)
+//@   at tb.Fatalf#0 assert [C13] err != nil && isStopTest(err.data)
+//@   at tb.Fatalf#1 assert [C13] err != nil && !isInvalidData(err.data) && !isStopTest(err.data)
+//@   loop 0 invariant [C13] 0 <= len(input) && len(input) <= old(len(input)) && arr(input) == old(arr(input)) && off(input) == old(off(input)) + (old(len(input)) - len(input))
+//@   loop 0 invariant [C13] old(len(input)) - len(input) == 8 * len(buf) || len(input) == 0 && len(buf) == (old(len(input)) + 7) / 8
+//@   loop 0 invariant [C13] arr(buf) == nil || fresh(arr(buf))
+//@   loop 0 invariant [C13] forall(j, 0, len(buf), buf[j] == fuzzWords[j])
+//@   loop 0 decreases len(input)
